@@ -1,0 +1,27 @@
+/*
+ * Verification hooks for the ASCON suite.
+ *
+ * When ASCON_SUITE_VERIF is not defined (all normal builds) every macro
+ * in this file expands to nothing and the object code is unchanged.
+ *
+ * When it is defined, the build must supply <ascon-verif-ghost.h> on the
+ * include path; that header defines, for each hook "name" used in the
+ * sources, the macros ASCON_VERIF_LOOP_name (loop contract clauses placed
+ * between a loop header and its body) and ASCON_VERIF_GHOST_name (ghost
+ * statements: snapshots and assertions that never assign a program
+ * variable).
+ */
+
+#ifndef ASCON_VERIF_H
+#define ASCON_VERIF_H
+
+#if defined(ASCON_SUITE_VERIF)
+#include <ascon-verif-ghost.h>
+#define ASCON_VERIF_LOOP(name)  ASCON_VERIF_LOOP_##name
+#define ASCON_VERIF_GHOST(name) ASCON_VERIF_GHOST_##name
+#else
+#define ASCON_VERIF_LOOP(name)
+#define ASCON_VERIF_GHOST(name)
+#endif
+
+#endif
